@@ -7,6 +7,7 @@ A *descriptor* is a JSON-able nested list/tuple ``[kind, param...]`` (children a
   domain(desc, cap)  -> list[Val]; Val.rich / Val.pod = the value as written/read in non-pod / pod mode,
                         Val.enc = (little-endian bytes, big-endian bytes) by an independent reference encoder,
                         Val.eof = True when the encoding must end its byte window (window-consuming)
+  order_variants(desc, val) -> (rich, pod) re-orderings of order-insensitive mappings that must encode/read identically
   probes(desc)       -> list[Probe] out-of-domain values (length max+1, wrong fixed length/count, range, bitfield overflow)
   classify(desc)     -> "self-delimiting" | "window-consuming" | "mixed" (derived from the domain's eof flags)
   describe(desc)     -> readable one-line form;  site(desc) -> root combinator + direct children (stable violation site)
@@ -31,6 +32,7 @@ from __future__ import annotations
 
 import dataclasses
 import enum
+import itertools
 import struct
 import uuid as _uuid
 from typing import Any, Dict, List, Optional, Sequence, Tuple
@@ -128,10 +130,19 @@ def _same(b: bytes) -> Tuple[bytes, bytes]:
 
 
 class Val:
-    __slots__ = ("rich", "pod", "enc", "eof")
+    """trich/tpod = the *twin*: the same value with the key insertion order of every order-insensitive mapping inside it
+    reversed (Template / Dataclass-pod / FlagSwitch / BitField dicts; never DictAdapter / MultiDict / Collection, where
+    order is part of the value).  The twin must encode to the same bytes and read back equal to the canonical value."""
+    __slots__ = ("rich", "pod", "enc", "eof", "trich", "tpod")
 
-    def __init__(self, rich, pod, enc, eof=False):
+    def __init__(self, rich, pod, enc, eof=False, trich=None, tpod=None, twin_of: "Val" = None):
         self.rich, self.pod, self.enc, self.eof = rich, pod, enc, eof
+        if twin_of is not None:
+            trich, tpod = twin_of.trich, twin_of.tpod
+            self.trich, self.tpod = trich, tpod
+        else:
+            self.trich = rich if trich is None and tpod is None else trich
+            self.tpod = pod if trich is None and tpod is None else tpod
 
     def __repr__(self):
         return f"Val({self.rich!r}, pod={self.pod!r}, enc={self.enc[0].hex()}{', eof' if self.eof else ''})"
@@ -383,7 +394,7 @@ def _lookup(env, key):
     return env[-1 - up][sel]
 
 
-def _adapt(spec, child_vals: List[Val], ctx=None) -> List[Val]:
+def _adapt(spec, child_vals: List[Val], ctx=None, mapping: bool = False) -> List[Val]:
     out, seen = [], set()
     for cv in child_vals:
         try:
@@ -396,8 +407,19 @@ def _adapt(spec, child_vals: List[Val], ctx=None) -> List[Val]:
         if key in seen:
             continue
         seen.add(key)
-        out.append(Val(rich, pod, cv.enc, cv.eof))
+        if cv.trich is cv.rich and cv.tpod is cv.pod:
+            trich, tpod = rich, pod
+        else:
+            trich, tpod = spec.decode(cv.trich, ctx, pod=False), spec.decode(cv.tpod, ctx, pod=True)
+        if mapping:
+            trich, tpod = _rev(trich), _rev(tpod)
+        out.append(Val(rich, pod, cv.enc, cv.eof, trich, tpod))
     return out
+
+
+def _rev(x):
+    """A dict with reversed key insertion order (other values unchanged)."""
+    return dict(reversed(list(x.items()))) if type(x) is dict else x
 
 
 def _prim_vals(prim: str, values=None) -> List[Val]:
@@ -586,15 +608,15 @@ def _dom_raw(d, env) -> List[Val]:
         vals = _prim_vals(d[1])
         if k == "intenum" and d[2]:
             vals = [v for v in vals if v.rich in (0, 1, 255)]  # strict: members only (independent of decode)
-        return _adapt(build(d), vals)
+        return _adapt(build(d), vals, mapping=k in ("bitfield", "bfdc"))
     if k == "strenum":
         return _adapt(build(d), _str_vals(d[1], ["foo", "bar"]))
     # ---------------------------------------------------------------- unary
     if k == "optprefixed":
-        return [Val(None, None, (b"\0", b"\0"))] + [Val(v.rich, v.pod, _cat(_same(b"\1"), v.enc), v.eof)
+        return [Val(None, None, (b"\0", b"\0"))] + [Val(v.rich, v.pod, _cat(_same(b"\1"), v.enc), v.eof, twin_of=v)
                                                    for v in _dom(d[1], env) if v.rich is not None]
     if k == "ifpresent":
-        return [Val(None, None, EMPTY, True)] + [Val(v.rich, v.pod, v.enc, True)
+        return [Val(None, None, EMPTY, True)] + [Val(v.rich, v.pod, v.enc, True, twin_of=v)
                                                  for v in _dom(d[1], env) if v.rich is not None and v.enc[0]]
     if k == "coll":
         return _coll_dom(d, env)
@@ -605,18 +627,18 @@ def _dom_raw(d, env) -> List[Val]:
             p = _typed_payload(v, d[3])
             if p is None or len(p[0]) > mx:
                 continue
-            out.append(Val(v.rich, v.pod, _cat(_both(d[1], len(p[0])), p)))
+            out.append(Val(v.rich, v.pod, _cat(_both(d[1], len(p[0])), p), twin_of=v))
         if d[3] and not any(v.rich is None for v in out):
             out.insert(0, Val(None, None, _both(d[1], 0)))
         return out
     if k == "typedfixed":
-        return [Val(v.rich, v.pod, v.enc) for v in _dom(d[2], env) if len(v.enc[0]) == d[1]]
+        return [Val(v.rich, v.pod, v.enc, twin_of=v) for v in _dom(d[2], env) if len(v.enc[0]) == d[1]]
     if k == "typedgreedy":
         out = []
         for v in _dom(d[1], env):
             p = _typed_payload(v, d[2])
             if p is not None:
-                out.append(Val(v.rich, v.pod, p, True))
+                out.append(Val(v.rich, v.pod, p, True, twin_of=v))
         if d[2] and not any(v.rich is None for v in out):
             out.insert(0, Val(None, None, EMPTY, True))
         return out
@@ -629,7 +651,7 @@ def _dom_raw(d, env) -> List[Val]:
             p = _typed_payload(v, d[3])
             if p is None or any(t in p[0] or t in p[1] for t in terms):
                 continue
-            out.append(Val(v.rich, v.pod, _cat(p, _same(terms[0]))))
+            out.append(Val(v.rich, v.pod, _cat(p, _same(terms[0])), twin_of=v))
         if d[3]:
             out.insert(0, Val(None, None, EMPTY, True))  # None writes nothing at all: only valid at the end of the window
         return out
@@ -641,7 +663,8 @@ def _dom_raw(d, env) -> List[Val]:
     # ---------------------------------------------------------------- n-ary
     if k == "tuple":
         rows = _seq_rows([c for c in d[1]], env, lambda row: [v.rich for v in row])
-        return [Val([v.rich for v in r], [v.pod for v in r], _cat(*[v.enc for v in r]), any(v.eof for v in r)) for r in rows]
+        return [Val([v.rich for v in r], [v.pod for v in r], _cat(*[v.enc for v in r]), any(v.eof for v in r),
+                    [v.trich for v in r], [v.tpod for v in r]) for r in rows]
     if k in ("template", "dataclass"):
         names = [n for n, _ in d[1]]
         rows = _seq_rows([c for _, c in d[1]], env, lambda row: {n: v.rich for n, v in zip(names, row)})
@@ -650,17 +673,21 @@ def _dom_raw(d, env) -> List[Val]:
             enc, eof = _cat(*[v.enc for v in r]), any(v.eof for v in r)
             if k == "dataclass":
                 cls = _dataclass_for(d)
-                out.append(Val(cls(**{n: v.rich for n, v in zip(names, r)}), {n: v.pod for n, v in zip(names, r)}, enc, eof))
+                out.append(Val(cls(**{n: v.rich for n, v in zip(names, r)}), {n: v.pod for n, v in zip(names, r)}, enc, eof,
+                               cls(**{n: v.trich for n, v in zip(names, r)}), _rev({n: v.tpod for n, v in zip(names, r)})))
             else:
                 skip = [d[2] and c[0] in ("optprefixed", "optflagged") and v.rich is None for (_, c), v in zip(d[1], r)]
                 out.append(Val({n: v.rich for n, v, s in zip(names, r, skip) if not s},
-                               {n: v.pod for n, v, s in zip(names, r, skip) if not s}, enc, eof))
+                               {n: v.pod for n, v, s in zip(names, r, skip) if not s}, enc, eof,
+                               _rev({n: v.trich for n, v, s in zip(names, r, skip) if not s}),
+                               _rev({n: v.tpod for n, v, s in zip(names, r, skip) if not s})))
         return out
     if k == "enumswitch":
         out = []
         for m, c in d[2]:
             for v in _dom(c, env):
-                out.append(Val(dtypes.TaggedUnion(E8(m), v.rich), (E8(m).name, v.pod), _cat(_both(d[1], m), v.enc), v.eof))
+                out.append(Val(dtypes.TaggedUnion(E8(m), v.rich), (E8(m).name, v.pod), _cat(_both(d[1], m), v.enc), v.eof,
+                               dtypes.TaggedUnion(E8(m), v.trich), (E8(m).name, v.tpod)))
         return _thin(out, 2 * CAP)
     if k == "flagswitch":
         out = []
@@ -674,7 +701,8 @@ def _dom_raw(d, env) -> List[Val]:
             flags = sum(m for m, _ in sub)
             for r in rows:
                 out.append(Val({F8(m): v.rich for (m, _), v in zip(sub, r)}, {F8(m).name: v.pod for (m, _), v in zip(sub, r)},
-                               _cat(_both(d[1], flags), *[v.enc for v in r]), any(v.eof for v in r)))
+                               _cat(_both(d[1], flags), *[v.enc for v in r]), any(v.eof for v in r),
+                               _rev({F8(m): v.trich for (m, _), v in zip(sub, r)}), _rev({F8(m).name: v.tpod for (m, _), v in zip(sub, r)})))
         return out
     if k == "lenswitch":
         int_keys = {n for n, _ in d[1] if n is not None}
@@ -684,12 +712,12 @@ def _dom_raw(d, env) -> List[Val]:
                 ln = len(v.enc[0])
                 if (n is None and ln in int_keys) or (n is not None and ln != n):
                     continue
-                out.append(Val(dtypes.TaggedUnion(ln, v.rich), (ln, v.pod), v.enc, True))
+                out.append(Val(dtypes.TaggedUnion(ln, v.rich), (ln, v.pod), v.enc, True, dtypes.TaggedUnion(ln, v.trich), (ln, v.tpod)))
         return out
     if k == "optflagged":
         flags = int(env[-1][d[1]])
         if flags & d[3]:
-            return [Val(v.rich, v.pod, v.enc, v.eof) for v in _dom(d[4], env)]
+            return [Val(v.rich, v.pod, v.enc, v.eof, twin_of=v) for v in _dom(d[4], env)]
         return [Val(None, None, EMPTY)]
     if k == "ctxswitch":
         sel = _lookup(env, d[1])
@@ -750,7 +778,56 @@ def _coll_dom(d, env) -> List[Val]:
         enc = _cat(*[v.enc for v in lst])
         if isinstance(ln, str):
             enc = _cat(_both(ln, len(lst)), enc)
-        out.append(Val([v.rich for v in lst], [v.pod for v in lst], enc, greedy or any(v.eof for v in lst)))
+        out.append(Val([v.rich for v in lst], [v.pod for v in lst], enc, greedy or any(v.eof for v in lst),
+                       [v.trich for v in lst], [v.tpod for v in lst]))
+    return out
+
+
+def _okey(x) -> str:
+    """Order-sensitive fingerprint (dict insertion order included) used to tell a twin from its canonical value."""
+    if dataclasses.is_dataclass(x) and not isinstance(x, type):
+        return "DC(" + ",".join(_okey(getattr(x, f.name)) for f in dataclasses.fields(x)) + ")"
+    if isinstance(x, lazy_object_proxy.Proxy):
+        return _okey(x.__wrapped__)
+    if isinstance(x, dtypes.TaggedUnion):
+        return "TU(" + _okey(x.tag) + "," + _okey(x.value) + ")"
+    if isinstance(x, OrderedMultiDict):
+        return "MD(" + ",".join(_okey(k) + ":" + _okey(v) for k, v in x.items(multi=True)) + ")"
+    if isinstance(x, dict):
+        return "{" + ",".join(_okey(k) + ":" + _okey(v) for k, v in x.items()) + "}"
+    if isinstance(x, (list, tuple)) and not isinstance(x, dtypes.TupleCoord):
+        return "[" + ",".join(_okey(v) for v in x) + "]"
+    return repr(x)
+
+
+MAPPING_ROOTS = ("template", "flagswitch", "bitfield", "bfdc", "dataclass")
+
+
+def order_variants(desc, val: Val) -> List[Tuple[Any, Any]]:
+    """(rich, pod) variants of ``val`` that differ only in the key insertion order of order-insensitive mappings: every
+    permutation of the root mapping's keys when it has <= 3 keys (reversed otherwise), plus the twin in which every
+    nested mapping is reversed.  Each must be written to val.enc and read back equal to the canonical value."""
+    d = T(desc)
+    out, seen = [], {(_okey(val.rich), _okey(val.pod))}
+
+    def add(r, p):
+        key = (_okey(r), _okey(p))
+        if key not in seen:
+            seen.add(key)
+            out.append((r, p))
+
+    add(val.trich, val.tpod)
+    if d[0] in MAPPING_ROOTS:
+        def perms(x):
+            if type(x) is not dict:
+                return [x]
+            items = list(x.items())
+            if len(items) <= 3:
+                return [dict(p) for p in itertools.permutations(items)]
+            return [dict(reversed(items))]
+        pr, pp = perms(val.rich), perms(val.pod)
+        for i in range(max(len(pr), len(pp))):
+            add(pr[i % len(pr)], pp[i % len(pp)])
     return out
 
 
